@@ -84,10 +84,24 @@ def shard(p):
             w1, w2 = rng.choice(SCALES[s1]), rng.choice(SCALES[s2])
             if rng.random() < 0.3:
                 (s1, w1), (s2, w2) = (s2, w2), (s1, w1)     # also the direction *into* the offset scale
+            SL1, SL2 = SLOPE[s1], SLOPE[s2]
+            if rng.random() < 0.3:
+                # the degree itself under an SI prefix inside the compound (J/m°C, k°F^2): as an interval it is the prefixed step
+                # (seed C09-j: a per-degree component of the TARGET keeps its prefix out of the conversion)
+                for which in (1, 2):
+                    if rng.random() < 0.6:
+                        sc = s1 if which == 1 else s2
+                        alts = [e for e in VT.entries if e["unit"] == {"K": "Kelvin", "C": "Celsius", "F": "Fahrenheit"}[sc] and e["prefix"] != 0 and len(e["word"]) <= 4]
+                        if alts:
+                            e_ = rng.choice(alts)
+                            if which == 1:
+                                w1, SL1 = e_["word"], SLOPE[s1] * F(10) ** e_["prefix"]
+                            else:
+                                w2, SL2 = e_["word"], SLOPE[s2] * F(10) ** e_["prefix"]
             if form == 0:
                 n = rng.choice([2, 3, -1, -2, -3])
                 u1, u2 = "%s^%d" % (w1, n), "%s^%d" % (w2, n)
-                factor = (SLOPE[s1] / SLOPE[s2]) ** n
+                factor = (SL1 / SL2) ** n
             elif form in (1, 2, 3):
                 comp = V.rand_factors(rng, nmax=2 if form == 3 else 1, pool=nonk)
                 ctext = G.text([(e, abs(pw)) for e, pw in comp])
@@ -102,13 +116,13 @@ def shard(p):
                     continue
                 if form == 1:
                     u1, u2 = "%s*%s" % (ctext, w1), "%s*%s" % (ttext, w2)
-                    factor = (cs / ts) * (SLOPE[s1] / SLOPE[s2])
+                    factor = (cs / ts) * (SL1 / SL2)
                 elif form == 2:
                     u1, u2 = "%s/%s" % (w1, ctext), "%s/%s" % (w2, ttext)
-                    factor = (ts / cs) * (SLOPE[s1] / SLOPE[s2])
+                    factor = (ts / cs) * (SL1 / SL2)
                 else:
                     u1, u2 = "%s/%s" % (ctext, w1), "%s/%s" % (ttext, w2)
-                    factor = (cs / ts) * (SLOPE[s2] / SLOPE[s1])
+                    factor = (cs / ts) * (SL2 / SL1)
             elif form in (9, 10):
                 # the SAME companion units, same prefix and power, on both sides (lb*°F to lb*°C, °F/acre to °C/acre), drawn from
                 # the whole vocabulary: a shortcut that pairs up and skips what both sides share must not leave the scale looking
@@ -124,7 +138,7 @@ def shard(p):
                     u1, u2 = ctext + sep + w1, ctext + sep + w2
                 else:
                     u1, u2 = w1 + sep + ctext, w2 + sep + ctext
-                factor = SLOPE[s1] / SLOPE[s2]
+                factor = SL1 / SL2
             elif form in (6, 7, 8):
                 # companions whose dimensions cancel (min/s, ft/in, Hz*s ...): the compound as a whole has the dimension of a
                 # temperature, but it is not a lone scale - the zero point must not be added (seed C09-c)
@@ -143,24 +157,24 @@ def shard(p):
                 if form == 6:
                     u1, u2 = rng.choice(["%s*%s/%s", "%s/%s*%s"]) , w2
                     if u1 == "%s*%s/%s":
-                        u1, factor = u1 % (w1, ea["word"], eb["word"]), ratio * SLOPE[s1] / SLOPE[s2]
+                        u1, factor = u1 % (w1, ea["word"], eb["word"]), ratio * SL1 / SL2
                     else:
                         # `/` inverts everything after it: w1 / (eb * ea^-1) is spelled with a negative power
-                        u1, factor = "%s*%s*%s^-1" % (ea["word"], w1, eb["word"]), ratio * SLOPE[s1] / SLOPE[s2]
+                        u1, factor = "%s*%s*%s^-1" % (ea["word"], w1, eb["word"]), ratio * SL1 / SL2
                 elif form == 7:
                     u1, u2 = w1, "%s*%s/%s" % (w2, ea["word"], eb["word"])
-                    factor = SLOPE[s1] / SLOPE[s2] / ratio
+                    factor = SL1 / SL2 / ratio
                 else:
                     if s1 == "K":
                         continue
                     u1, u2 = rng.choice(["K*K/%s" % w1, "K^2/%s" % w1, "K^2*%s^-1" % w1]), w2
-                    factor = F(1) / SLOPE[s1] / SLOPE[s2]
+                    factor = F(1) / SL1 / SL2
             elif form == 4:
                 u1, u2 = "°C*°F", rng.choice(["K^2", "K*°C", "°F*K"])
                 factor = F(5, 9) / {"K^2": F(1), "K*°C": F(1), "°F*K": F(5, 9)}[u2]
             else:
                 u1, u2 = "%s^-1" % w1, "%s^-1" % w2
-                factor = SLOPE[s2] / SLOPE[s1]
+                factor = SL2 / SL1
             q = "%s %s to %s" % (xs, u1, u2)
             reqs.append({"op": "query", "q": q})
             meta.append(("compound", q, x * factor, 2, "form%d" % form))
